@@ -93,7 +93,9 @@ def KidsOKs (kids : Nat → List Nat) : List T → Prop
   | k :: ks => KidsOK kids k ∧ KidsOKs kids ks
 end
 
-def kidsOf (g : G) (n : Nat) : List Nat := (g.node n).outs.map fun e => (g.edge e).dst
+/-- the nodes the DFS continues with: targets of the out-edges (run from the top) or sources of the in-edges (from the bottom) -/
+def kidsOf (down : Bool) (g : G) (n : Nat) : List Nat :=
+  if down then (g.node n).outs.map fun e => (g.edge e).dst else (g.node n).ins.map fun e => (g.edge e).src
 
 def bump (idx : List (Int × Int)) (l : Int) : List (Int × Int) :=
   if idx.any (·.1 == l) then idx.map fun (k, c) => if k == l then (k, c + 1) else (k, c) else idx ++ [(l, 1)]
@@ -109,10 +111,10 @@ theorem node_setPos (g : G) (n m : Nat) (p : Int) :
   rw [G.node_modNode]
   split <;> simp
 
-theorem kidsOf_setPos (g : G) (n : Nat) (p : Int) : kidsOf (setPos g n p) = kidsOf g := by
+theorem kidsOf_setPos (down : Bool) (g : G) (n : Nat) (p : Int) : kidsOf down (setPos g n p) = kidsOf down g := by
   funext m
   unfold kidsOf
-  rw [(node_setPos g n m p).1]
+  rw [(node_setPos g n m p).1, (node_setPos g n m p).2.2]
   rfl
 
 theorem layerOf_setPos (g : G) (n m : Nat) (p : Int) : (setPos g n p).layerOf m = g.layerOf m := by
@@ -121,33 +123,33 @@ theorem layerOf_setPos (g : G) (n m : Nat) (p : Int) : (setPos g n p).layerOf m 
 theorem size_setPos (g : G) (n : Nat) (p : Int) : (setPos g n p).nodes.size = g.nodes.size := by
   unfold setPos; simp
 
-theorem fold_frame : ∀ (l : List Nat) (acc : List (Int × Int) × G),
-    kidsOf (l.foldl visit1 acc).2 = kidsOf acc.2 ∧ (∀ m, (l.foldl visit1 acc).2.layerOf m = acc.2.layerOf m) ∧
+theorem fold_frame (down : Bool) : ∀ (l : List Nat) (acc : List (Int × Int) × G),
+    kidsOf down (l.foldl visit1 acc).2 = kidsOf down acc.2 ∧ (∀ m, (l.foldl visit1 acc).2.layerOf m = acc.2.layerOf m) ∧
     (l.foldl visit1 acc).2.nodes.size = acc.2.nodes.size
   | [], _ => ⟨rfl, fun _ => rfl, rfl⟩
   | x :: l, acc => by
-    obtain ⟨h1, h2, h3⟩ := fold_frame l (visit1 acc x)
+    obtain ⟨h1, h2, h3⟩ := fold_frame down l (visit1 acc x)
     simp only [List.foldl_cons]
-    refine ⟨h1.trans (kidsOf_setPos _ _ _), fun m => (h2 m).trans (layerOf_setPos _ _ _ _), h3.trans (size_setPos _ _ _)⟩
+    refine ⟨h1.trans (kidsOf_setPos down _ _ _), fun m => (h2 m).trans (layerOf_setPos _ _ _ _), h3.trans (size_setPos _ _ _)⟩
 
 /-- one step of the machine on a node that was not visited yet -/
-theorem initDfs_visit (fuel : Nat) (n : Nat) (rest : List Nat) (tl : List (List Nat)) (vis : List Nat)
+theorem initDfs_visit (down : Bool) (fuel : Nat) (n : Nat) (rest : List Nat) (tl : List (List Nat)) (vis : List Nat)
     (idx : List (Int × Int)) (g : G) (hv : vis.contains n = false) :
-    initDfs true (fuel + 1) ((n :: rest) :: tl) vis idx g =
-      initDfs true fuel (kidsOf g n :: rest :: tl) (n :: vis) (visit1 (idx, g) n).1 (visit1 (idx, g) n).2 := by
+    initDfs down (fuel + 1) ((n :: rest) :: tl) vis idx g =
+      initDfs down fuel (kidsOf down g n :: rest :: tl) (n :: vis) (visit1 (idx, g) n).1 (visit1 (idx, g) n).2 := by
   rw [initDfs]
-  simp only [hv, Bool.false_eq_true, if_false, if_true]
-  have hk : kidsOf (setPos g n (lookupD 0 idx (g.layerOf n))) n = kidsOf g n := by rw [kidsOf_setPos]
-  unfold kidsOf at hk
-  simp only [visit1, bump, hk]
+  simp only [hv, Bool.false_eq_true, if_false]
+  have hk : kidsOf down (setPos g n (lookupD 0 idx (g.layerOf n))) n = kidsOf down g n := by rw [kidsOf_setPos]
+  simp only [visit1, bump]
+  rw [← hk]
   rfl
 
 mutual
 /-- the machine works through a subtree in `cost t` steps, visiting its nodes in pre-order -/
-theorem run_tree : ∀ (t : T) (f : Nat) (rest : List Nat) (tl : List (List Nat)) (vis : List Nat) (idx : List (Int × Int)) (g : G),
-    KidsOK (kidsOf g) t → (∀ x ∈ ids t, x ∉ vis) → (ids t).Nodup →
-    initDfs true (cost t + f) ((t.id :: rest) :: tl) vis idx g =
-      initDfs true f (rest :: tl) ((ids t).reverse ++ vis) ((ids t).foldl visit1 (idx, g)).1 ((ids t).foldl visit1 (idx, g)).2
+theorem run_tree (down : Bool) : ∀ (t : T) (f : Nat) (rest : List Nat) (tl : List (List Nat)) (vis : List Nat) (idx : List (Int × Int)) (g : G),
+    KidsOK (kidsOf down g) t → (∀ x ∈ ids t, x ∉ vis) → (ids t).Nodup →
+    initDfs down (cost t + f) ((t.id :: rest) :: tl) vis idx g =
+      initDfs down f (rest :: tl) ((ids t).reverse ++ vis) ((ids t).foldl visit1 (idx, g)).1 ((ids t).foldl visit1 (idx, g)).2
   | .node x ks, f, rest, tl, vis, idx, g, hk, hvis, hnd => by
     simp only [KidsOK] at hk
     have hx : vis.contains x = false := by
@@ -156,38 +158,38 @@ theorem run_tree : ∀ (t : T) (f : Nat) (rest : List Nat) (tl : List (List Nat)
     have hnd' := List.nodup_cons.1 (by simpa [ids] using hnd : (x :: idss ks).Nodup)
     rw [show cost (.node x ks) + f = (costs ks + (f + 1)) + 1 by simp only [cost]; omega]
     simp only [T.id]
-    rw [initDfs_visit _ x rest tl vis idx g hx, hk.1]
-    have hkids : KidsOKs (kidsOf (visit1 (idx, g) x).2) ks := by
+    rw [initDfs_visit down _ x rest tl vis idx g hx, hk.1]
+    have hkids : KidsOKs (kidsOf down (visit1 (idx, g) x).2) ks := by
       simp only [visit1, kidsOf_setPos]; exact hk.2
     have hvis' : ∀ y ∈ idss ks, y ∉ x :: vis := by
       intro y hy hmem
       rcases List.mem_cons.1 hmem with rfl | hmem
       · exact hnd'.1 hy
       · exact hvis y (by simp [ids, hy]) hmem
-    have := run_forest ks (f + 1) [] (rest :: tl) (x :: vis) (visit1 (idx, g) x).1 (visit1 (idx, g) x).2 hkids hvis' hnd'.2
+    have := run_forest down ks (f + 1) [] (rest :: tl) (x :: vis) (visit1 (idx, g) x).1 (visit1 (idx, g) x).2 hkids hvis' hnd'.2
     rw [List.append_nil] at this
     rw [this, initDfs]
     simp only [ids, List.foldl_cons, List.reverse_cons, List.append_assoc, List.singleton_append]
   termination_by t => sizeOf t
-theorem run_forest : ∀ (ks : List T) (f : Nat) (rest : List Nat) (tl : List (List Nat)) (vis : List Nat) (idx : List (Int × Int)) (g : G),
-    KidsOKs (kidsOf g) ks → (∀ x ∈ idss ks, x ∉ vis) → (idss ks).Nodup →
-    initDfs true (costs ks + f) ((ks.map T.id ++ rest) :: tl) vis idx g =
-      initDfs true f (rest :: tl) ((idss ks).reverse ++ vis) ((idss ks).foldl visit1 (idx, g)).1 ((idss ks).foldl visit1 (idx, g)).2
+theorem run_forest (down : Bool) : ∀ (ks : List T) (f : Nat) (rest : List Nat) (tl : List (List Nat)) (vis : List Nat) (idx : List (Int × Int)) (g : G),
+    KidsOKs (kidsOf down g) ks → (∀ x ∈ idss ks, x ∉ vis) → (idss ks).Nodup →
+    initDfs down (costs ks + f) ((ks.map T.id ++ rest) :: tl) vis idx g =
+      initDfs down f (rest :: tl) ((idss ks).reverse ++ vis) ((idss ks).foldl visit1 (idx, g)).1 ((idss ks).foldl visit1 (idx, g)).2
   | [], f, rest, tl, vis, idx, g, _, _, _ => by simp [costs, idss]
   | k :: ks, f, rest, tl, vis, idx, g, hk, hvis, hnd => by
     simp only [KidsOKs] at hk
     have hnd' := List.nodup_append.1 (by simpa [idss] using hnd : (ids k ++ idss ks).Nodup)
     rw [show costs (k :: ks) + f = cost k + (costs ks + f) by simp only [costs]; omega]
     simp only [List.map_cons, List.cons_append]
-    rw [run_tree k (costs ks + f) (ks.map T.id ++ rest) tl vis idx g hk.1 (fun y hy => hvis y (by simp [idss, hy])) hnd'.1]
-    have hfr := fold_frame (ids k) (idx, g)
-    have hkids : KidsOKs (kidsOf ((ids k).foldl visit1 (idx, g)).2) ks := by rw [hfr.1]; exact hk.2
+    rw [run_tree down k (costs ks + f) (ks.map T.id ++ rest) tl vis idx g hk.1 (fun y hy => hvis y (by simp [idss, hy])) hnd'.1]
+    have hfr := fold_frame down (ids k) (idx, g)
+    have hkids : KidsOKs (kidsOf down ((ids k).foldl visit1 (idx, g)).2) ks := by rw [hfr.1]; exact hk.2
     have hvis' : ∀ y ∈ idss ks, y ∉ (ids k).reverse ++ vis := by
       intro y hy hmem
       rcases List.mem_append.1 hmem with h1 | h1
       · exact hnd'.2.2 y (List.mem_reverse.1 h1) y hy rfl
       · exact hvis y (by simp [idss, hy]) h1
-    rw [run_forest ks f rest tl _ _ _ hkids hvis' hnd'.2.1]
+    rw [run_forest down ks f rest tl _ _ _ hkids hvis' hnd'.2.1]
     simp only [idss, List.foldl_append, List.reverse_append, List.append_assoc]
   termination_by ks => sizeOf ks
 end
@@ -331,14 +333,14 @@ theorem costs_eq : ∀ (ks : List T), costs ks = 2 * (idss ks).length
 end
 
 /-- nodes that were all visited already are skipped, one step each -/
-theorem skip_all : ∀ (rest : List Nat) (f : Nat) (vis : List Nat) (idx : List (Int × Int)) (g : G),
-    (∀ n ∈ rest, vis.contains n = true) → initDfs true (rest.length + 2 + f) [rest] vis idx g = .ok (vis, idx, g)
+theorem skip_all (down : Bool) : ∀ (rest : List Nat) (f : Nat) (vis : List Nat) (idx : List (Int × Int)) (g : G),
+    (∀ n ∈ rest, vis.contains n = true) → initDfs down (rest.length + 2 + f) [rest] vis idx g = .ok (vis, idx, g)
   | [], f, vis, idx, g, _ => by
     rw [show ([] : List Nat).length + 2 + f = (f + 1) + 1 by simp; omega, initDfs, initDfs]; rfl
   | n :: rest, f, vis, idx, g, h => by
     rw [show (n :: rest).length + 2 + f = (rest.length + 2 + f) + 1 by simp only [List.length_cons]; omega, initDfs]
     simp only [h n (List.mem_cons_self ..), if_true]
-    exact skip_all rest f vis idx g (fun m hm => h m (List.mem_cons_of_mem _ hm))
+    exact skip_all down rest f vis idx g (fun m hm => h m (List.mem_cons_of_mem _ hm))
 
 theorem rankIn_idxOf (lay : Nat → Int) (x : Nat) : ∀ (l : List Nat), x ∈ l →
     rankIn lay x l = (l.filter fun y => lay y == lay x).idxOf x
@@ -362,19 +364,22 @@ theorem rankIn_idxOf (lay : Nat → Int) (x : Nat) : ∀ (l : List Nat), x ∈ l
         simp only [if_neg hl, hb, Bool.false_eq_true, if_false, Nat.zero_add]
         exact ih
 
-/-- the state represents the rooted tree `t`: out-lists are the children in order, the root is alone in layer list 0, layers are
-    depths (from `base`), every node of the state is a tree node -/
-structure TreeRep (g : G) (t : T) (base : Int) : Prop where
-  kids : KidsOK (kidsOf g) t
+/-- the state represents the rooted tree `t` for the run from the top (`down = true`: out-lists are the children in order, the root
+    is alone in the first layer list) or from the bottom (`down = false`: in-lists are the children, the root is alone in the last
+    layer list); the layer of a node is an injective function `L` of its depth; every node of the state is a tree node -/
+structure TreeRep (down : Bool) (g : G) (t : T) (L : Nat → Int) : Prop where
+  kids : KidsOK (kidsOf down g) t
   nd : (ids t).Nodup
-  first : (g.layers.getD 0 default).nodes = [t.id]
+  first : (if down then (g.layers.getD 0 default).nodes else (g.layers.getD (g.layers.size - 1) default).nodes) = [t.id]
   span : ∀ n ∈ g.nodeIds, n ∈ ids t
   bound : ∀ x ∈ ids t, x < g.nodes.size
   size : (ids t).length ≤ g.nodes.size
-  lay : ∀ p ∈ pre t 0, g.layerOf p.1 = base + (p.2 : Int)
+  inj : ∀ a b, L a = L b → a = b
+  lay : ∀ p ∈ pre t 0, g.layerOf p.1 = L p.2
 
-theorem ids_filter_depth (g : G) (t : T) (base : Int) (hlay : ∀ p ∈ pre t 0, g.layerOf p.1 = base + (p.2 : Int)) (d : Nat) :
-    (ids t).filter (fun y => g.layerOf y == base + (d : Int)) = lvl t d := by
+theorem ids_filter_depth (g : G) (t : T) (L : Nat → Int) (hinj : ∀ a b, L a = L b → a = b)
+    (hlay : ∀ p ∈ pre t 0, g.layerOf p.1 = L p.2) (d : Nat) :
+    (ids t).filter (fun y => g.layerOf y == L d) = lvl t d := by
   rw [← pre_ids t 0, List.filter_map, ← pre_lvl t 0 d]
   simp only [atDepth, Nat.zero_add]
   congr 1
@@ -384,17 +389,17 @@ theorem ids_filter_depth (g : G) (t : T) (base : Int) (hlay : ∀ p ∈ pre t 0,
   by_cases h : p.2 = d
   · simp [h]
   · have h1 : (p.2 == d) = false := by simpa using h
-    have h2 : (base + (p.2 : Int) == base + (d : Int)) = false := by
-      rw [beq_eq_false_iff_ne]; omega
+    have h2 : (L p.2 == L d) = false := by
+      rw [beq_eq_false_iff_ne]; exact fun e => h (hinj _ _ e)
     rw [h1, h2]
 
-/-- C13 bridge: the DFS initialisation from the top, run on a state that represents a rooted tree, returns, and gives every node
-    its index in the pre-order level list of its depth -/
-theorem initPositions_tree (g : G) (t : T) (base : Int) (h : TreeRep g t base) :
-    ∃ g', initPositions true g = .ok g' ∧
+/-- C13 bridge: the DFS initialisation (from the top on an out-tree state, from the bottom on an in-tree state) returns, and gives
+    every node its index in the pre-order level list of its depth -/
+theorem initPositions_tree (down : Bool) (g : G) (t : T) (L : Nat → Int) (h : TreeRep down g t L) :
+    ∃ g', initPositions down g = .ok g' ∧
       ∀ d, ∀ x ∈ lvl t d, (g'.node x).pos = (((lvl t d).idxOf x : Nat) : Int) := by
   unfold initPositions
-  simp only [if_true, h.first]
+  simp only [h.first]
   have hcost := cost_eq t
   have hV : g.nodeIds.length = g.nodes.size := by simp [G.nodeIds]
   have hfuel : 2 * (g.edges.size + g.nodes.size) + 2 * g.nodes.size + 8 =
@@ -402,7 +407,7 @@ theorem initPositions_tree (g : G) (t : T) (base : Int) (h : TreeRep g t base) :
     have := h.size
     omega
   rw [hfuel]
-  have hrun := run_tree t (g.nodeIds.length + 2 + (2 * (g.edges.size + g.nodes.size) + 2 * g.nodes.size + 8 - cost t - g.nodes.size - 2))
+  have hrun := run_tree down t (g.nodeIds.length + 2 + (2 * (g.edges.size + g.nodes.size) + 2 * g.nodes.size + 8 - cost t - g.nodes.size - 2))
     g.nodeIds [] [] [] g h.kids (fun x _ hx => by cases hx) h.nd
   simp only [List.singleton_append]
   rw [hrun, skip_all]
@@ -414,16 +419,15 @@ theorem initPositions_tree (g : G) (t : T) (base : Int) (h : TreeRep g t base) :
     have hpmem := (List.mem_filter.1 hp).1
     have hpd : p.2 = d := by simpa using (List.mem_filter.1 hp).2
     have hxid : x ∈ ids t := by rw [← pre_ids t 0]; exact List.mem_map.2 ⟨p, hpmem, hpx⟩
-    have hlayx : g.layerOf x = base + (d : Int) := by rw [← hpx, h.lay p hpmem, hpd]
+    have hlayx : g.layerOf x = L d := by rw [← hpx, h.lay p hpmem, hpd]
     have hpos := fold_pos (ids t) ([], g) h.nd h.bound x hxid
     simp only [lookupD, Int.zero_add] at hpos
     rw [hpos, rankIn_idxOf _ x (ids t) hxid]
     simp only [hlayx]
-    rw [ids_filter_depth g t base h.lay d]
+    rw [ids_filter_depth g t L h.inj h.lay d]
   · intro n hn
     have := h.span n hn
     simpa using this
-
 
 theorem pairwise_idxOf : ∀ (l : List Nat), l.Nodup → List.Pairwise (fun a b => l.idxOf a < l.idxOf b) l
   | [], _ => .nil
@@ -443,13 +447,13 @@ theorem pairwise_idxOf : ∀ (l : List Nat), l.Nodup → List.Pairwise (fun a b 
 
 /-- C13: after the DFS initialisation of a tree state no two tree edges between consecutive depths cross: listed parent by parent,
     parent positions never decrease and child positions strictly increase -/
-theorem initPositions_tree_no_crossing (g : G) (t : T) (base : Int) (h : TreeRep g t base) :
-    ∃ g', initPositions true g = .ok g' ∧
+theorem initPositions_tree_no_crossing (down : Bool) (g : G) (t : T) (L : Nat → Int) (h : TreeRep down g t L) :
+    ∃ g', initPositions down g = .ok g' ∧
       ∀ d, List.Pairwise (fun e f => (g'.node e.1).pos ≤ (g'.node f.1).pos ∧ (g'.node e.2).pos < (g'.node f.2).pos) (edg t d) := by
-  obtain ⟨g', hg, hpos⟩ := initPositions_tree g t base h
+  obtain ⟨g', hg, hpos⟩ := initPositions_tree down g t L h
   refine ⟨g', hg, fun d => ?_⟩
   have hnd : ∀ d, (lvl t d).Nodup := by
-    intro d; rw [← ids_filter_depth g t base h.lay d]; exact h.nd.filter _
+    intro d; rw [← ids_filter_depth g t L h.inj h.lay d]; exact h.nd.filter _
   have hinc : ∀ d, List.Pairwise (fun a b => (g'.node a).pos.toNat < (g'.node b).pos.toNat) (lvl t d) := by
     intro d
     refine (pairwise_idxOf (lvl t d) (hnd d)).imp_of_mem ?_
